@@ -218,3 +218,24 @@ Theorem C15_rekey_step_capacity_recovered : forall s, length s = 40 -> bytes_ok 
   skipn 8 (perm_inv 0 (Perm.perm 0 (zero_rate s))) = skipn 8 s.
 Proof. exact rekey_step_capacity_recovered. Qed.
 Print Assumptions C15_rekey_step_capacity_recovered.
+
+(* The TRNG mixer behind the masking randomness (Model/Mixerm.v, tied to ascon-trng-mixer.c by exact-word comparison in three state
+   layouts): every byte of the 32-byte system answer is in the generator's first state (init is injective in the seed); a 64-bit
+   draw always reads a fresh block (it refills unless nothing was handed out since the last permutation) and a 32-bit draw reads the
+   next unread half or refills; a reseed forgets the previous rate. *)
+From AsconV Require Import Model.Mixerm Proofs.MixerP.
+Theorem C15_mixer_init_injective : forall s1 s2, length s1 = 32 -> bytes_ok s1 -> length s2 = 32 -> bytes_ok s2 ->
+  mix_init Perm.perm s1 = mix_init Perm.perm s2 -> s1 = s2.
+Proof. exact mix_init_injective. Qed.
+Print Assumptions C15_mixer_init_injective.
+Theorem C15_mixer_draws_fresh : forall k s, m_posn s <= 8 ->
+  (m_posn (fst (mix_gen64 Perm.perm k s)) = 8 /\ (m_posn s = 0 -> m_st (fst (mix_gen64 Perm.perm k s)) = m_st s) /\
+   (0 < m_posn s -> m_st (fst (mix_gen64 Perm.perm k s)) = Perm.perm 6 (m_st s))) /\
+  ((m_posn s <= 4 -> m_st (fst (mix_gen32 Perm.perm k s)) = m_st s /\ m_posn (fst (mix_gen32 Perm.perm k s)) = m_posn s + 4) /\
+   (4 < m_posn s -> m_st (fst (mix_gen32 Perm.perm k s)) = Perm.perm 6 (m_st s) /\ m_posn (fst (mix_gen32 Perm.perm k s)) = 4)).
+Proof. intros k s H. exact (conj (mix_gen64_fresh Perm.perm k s H) (mix_gen32_fresh Perm.perm k s H)). Qed.
+Print Assumptions C15_mixer_draws_fresh.
+Theorem C15_mixer_reseed_erases_rate : forall s s' seed, length (m_st s) = 40 -> length (m_st s') = 40 ->
+  skipn 8 (m_st s) = skipn 8 (m_st s') -> mix_reseed Perm.perm s seed = mix_reseed Perm.perm s' seed.
+Proof. exact (mix_reseed_erases_rate Perm.perm). Qed.
+Print Assumptions C15_mixer_reseed_erases_rate.
